@@ -25,6 +25,7 @@ import (
 	"github.com/zmap/zcrypto/x509"
 	"verifmc/internal/ev"
 	"verifmc/internal/fx"
+	"verifmc/internal/nohb"
 )
 
 // ------------------------------------------------------------------ alphabets
@@ -139,6 +140,10 @@ func mintSpecs() []mintSpec {
 }
 
 func main() {
+	if nohb.IsWorker() {
+		nohb.WorkerMain(reentrantOps(), reentrantRepoDir())
+		return
+	}
 	ev.Main("C09", "model_checking", func(c *ev.Ctx) {
 		if c.Replay != nil {
 			replay(c)
@@ -487,6 +492,7 @@ func main() {
 		c.Distinct.Add(nontriv)
 		c.Set("evaluations_on_parsed_DER_certificates", parsedEv)
 		c.Set("rejections_with_error_type_other_than_HostnameError", otherErr)
+		reentrantPhase(c)
 	})
 }
 
